@@ -426,7 +426,8 @@ pub async fn scenario() {
 						if let Expect::Reply { ids, .. } = e {
 							let http_processed = parse_response(&rep.body).is_ok_and(|(id, out)| satisfies(e, &id, &out));
 							let ws_processed = r.frames.iter().filter_map(|(_, f)| parse_response(f).ok()).any(|(id, out)| ids.contains(&id) && id != Value::Null && satisfies(e, &id, &out));
-							if ids.iter().any(|i| *i != Value::Null) && m.cls.is_call && http_processed != ws_processed {
+							let unique = ids.iter().all(|i| msgs.iter().filter(|o| String::from_utf8_lossy(&o.bytes).contains(&i.to_string())).count() == 1);
+							if ids.iter().any(|i| *i != Value::Null) && m.cls.is_call && unique && http_processed != ws_processed {
 								rt::violate(P, "transports-differ", "formfeed-in-leading-whitespace", format!("{:?}: processed over HTTP: {http_processed}, over WebSocket: {ws_processed}", String::from_utf8_lossy(&m.bytes)));
 							}
 						}
@@ -450,7 +451,10 @@ pub async fn scenario() {
 							rt::violate(P, "unexpected-reply", format!("http:wrong-content:{}", handler_kind(&m.cls)), format!("HTTP reply {} to {:?}; expected {e:?}", String::from_utf8_lossy(&rep.body), String::from_utf8_lossy(&m.bytes)));
 						}
 						// same response object over both transports (calls only)
-						if m.cls.is_call && id != Value::Null {
+						// (only when no other message of this connection carries the same id - byte flips can make two ids
+						// equal - otherwise the WebSocket reply cannot be attributed by id)
+						let id_unique = msgs.iter().filter(|o| matches!(&o.cls.expect, Expect::Reply { ids, .. } if ids.contains(&id))).count() == 1;
+						if m.cls.is_call && id != Value::Null && id_unique {
 							let ws_same = r.frames.iter().filter_map(|(_, f)| parse_response(f).ok()).find(|(i, _)| *i == id);
 							if let Some((_, ws_out)) = ws_same {
 								if ws_out != outcome {
